@@ -39,10 +39,13 @@ CLAIMED['C04'] = dict(category='proof',
         'S*limit_class <= 1 for the limit the REAL step-limit functions (_calculate_int_dz, _calculate_byp_dz, '
         'region_unrodded.calculate_min_dz, all _cons*) compute for that cell\'s neighbour class; the returned limit is <= '
         'every class limit. With the arithmetic lemma this gives non-negative weights for every dz <= limit, for all real '
-        'inputs.',
+        'inputs. Inter-assembly gap: the flowing-gap update of the real Core._flow_model on the topology of loaded cores '
+        'is exactly a combination with off-diagonal weights >= 0 and self weight 1 - dz S_i, and S_i x (the candidate '
+        'limit core.calculate_min_dz hands to min() for cell i) <= 1 at both temperatures; the no-flow and duct-average '
+        'models return convex combinations of the adjacent duct-wall (and neighbouring gap) temperatures.',
    note=_ASSUME + 'Enumerated ring counts 2,3,4 cover every neighbour class the code distinguishes (7-pin special cases, '
         '19-pin, >19-pin); constant properties within a step. Not decided: the limit for temperature-dependent coolants '
-        'is evaluated at the two end temperatures only. Gap-coolant kernels of core.py: see C02/C09 status.',
+        'is evaluated at the two end temperatures only.',
    technique='contract-based deductive verification (exact affine decomposition of the real kernels + normaliser / sign certificates / z3)')
 CLAIMED['C14'] = dict(category='proof',
    text='Post-conditions of the real pressure-drop methods for all real inputs: friction and gravity increments equal '
